@@ -71,13 +71,15 @@ def _int(v):
     return int(round(v))
 
 
-def gen_call(rng):
+def gen_call(rng, big=False):
     x = make_track(rng)
+    if big:          # float64 input whose values and running sums need more than 24 bits (exact in float64, not in float32)
+        x = [[v * 1048577 for v in row] for row in x]
     if rng.random() < 0.6:
         mn = rng.randint(3, 8)
         return dict(op="recursive", x=x, thr1000=rng.choice([1, 10, 50, 100, 200]), minlen=mn, maxlen=rng.randint(mn + 2, 30),
                     flanks=rng.randint(0, 5), window=0, flank=0)
-    return dict(op="tfmodisco", x=x, thr1000=0, minlen=0, maxlen=0, flanks=0, window=rng.choice([4, 5, 6, 9, 10, 15, 21]), flank=rng.choice([0, 2, 5, 10]))
+    return dict(op="tfmodisco", x=x, thr1000=0, minlen=0, maxlen=0, flanks=0, window=rng.choice([1, 2, 3, 4, 5, 6, 9, 10, 15, 21]), flank=rng.choice([0, 2, 5, 10]))
 
 
 def handler(case):
@@ -91,7 +93,11 @@ def handler(case):
         return out
     if mode == "m2":
         rng = random.Random(case["seed"])
-        return {"events": [run_rows(gen_call(rng), rng.randrange(1000)) for _ in range(case["n"])]}
+        evs = []
+        for _ in range(case["n"]):
+            variant = rng.randrange(1000)
+            evs.append(run_rows(gen_call(rng, big=(variant % 2 == 1 and variant % 5 < 2)), variant))
+        return {"events": evs}
     if mode == "ev":
         return {"ev": run_rows(case["call"], case.get("variant", 0))}
 
